@@ -111,6 +111,7 @@ func Run(f func()) (out Outcome) {
 }
 
 func runOnce(f func()) (out Outcome) {
+	regionSuffix = ""
 	defer func() {
 		if r := recover(); r != nil {
 			switch r := r.(type) {
@@ -186,7 +187,14 @@ func Assume(c bool) {
 		panic(assumeFailed{})
 	}
 }
+// Region names the input region of the assertions that follow (appended to their labels), so that
+// a recorded finding is tied to the inputs it concerns and the same assertion stays armed elsewhere.
+func Region(suffix string) { regionSuffix = suffix }
+
+var regionSuffix string
+
 func Assert(c bool, label string) {
+	label += regionSuffix
 	events = append(events, event{"assert", label, c})
 	if !c {
 		Out.Failed = append(Out.Failed, label)
